@@ -1,5 +1,5 @@
 (* Engine `connguard` (C11), model side: replays a script on the extracted Model/ConnGuard.v.
-   Input line:  <max> <both|http|ws> <op>.<i>.<hint> ...      (hints are for the real side only)
+   Input line:  <max> <both|http|ws|ping> <op>.<i>.<hint> ...      (hints are for the real side only)
    Output line: one `<status|->:<avail>:<handlers>` per step, space separated. *)
 open Common
 open Connguard_model
@@ -19,7 +19,7 @@ let step_of tok =
      | "hu" -> SHBurst (i, k)
      | "ho" -> SHOpen i | "hb" -> SHBody i | "hr" -> SHRel i | "ha" | "hf" -> SHAbort i | "hx" -> SHRelAbort i | "hg" -> SHGet i
      | "wo" -> SWOpen i | "wb" -> SWBad i | "we" -> SWEarly i | "wc" -> SWCall i | "wr" -> SWRel i | "wl" -> SWClose i
-     | "wa" | "wf" -> SWAbort i | "wg" -> SWGarbage i | "wx" -> SWCloseAbort i
+     | "wa" | "wf" -> SWAbort i | "wg" -> SWGarbage i | "wx" -> SWCloseAbort i | "wi" -> SWIdle i
      | _ -> failwith ("bad op " ^ op))
   | _ -> failwith ("bad token " ^ tok)
 
@@ -28,7 +28,7 @@ let handle line =
   | mx :: mode :: toks ->
     let c = { c_max = n_of_int (int_of_string mx); c_http = (mode <> "ws"); c_ws = (mode <> "http") } in
     let obs = script_run (init c) (List.map step_of toks) in
-    let s o = Printf.sprintf "%s:%d:%d" (let st = int_of_n o.o_status in if st = 0 then "-" else if st >= 1000 then "b" ^ string_of_int (st - 1000) else string_of_int st)
+    let s o = Printf.sprintf "%s:%d:%d" (let st = int_of_n o.o_status in if st = 0 then "-" else if st = 1 then "c" else if st = 2 then "o" else if st >= 1000 then "b" ^ string_of_int (st - 1000) else string_of_int st)
         (int_of_n o.o_avail) (int_of_n o.o_handlers) in
     print_endline (String.concat " " (List.map s obs))
   | _ -> print_endline "?bad-line"
